@@ -21,8 +21,8 @@ RULE = ('(a) requirement x version grid: operators {bare,^,~,=,<,<=,>,>=} x part
         '(i_req+i_ver+seed)%3==0. Release cells: cargo_parse(req)(v) == refcargo.matches(req,v); pre-release cells: only '
         '"False when no comparator names a pre-release". non-trivial cell = a version one step (+-1 in one component) away '
         'carries the opposite expected answer (boundary cell), or a pre-release whose release would be accepted; distinct by '
-        '(canonical requirement, version). (b) all ordered pairs and all triples of a ~75 version set (SemVer section 11 '
-        'examples, numeric/alphanumeric/hyphen/upper-case identifiers, longer lists, build metadata) + Hypothesis random '
+        '(canonical requirement, version). (b) all ordered pairs and all triples of an 88 version set (SemVer section 11 '
+        'examples, numeric/alphanumeric/hyphen/upper-case identifiers, numeric first identifiers, digit-leading alphanumeric identifiers, longer lists, build metadata) + Hypothesis random '
         'versions: trichotomy, operator consistency, antisymmetry, transitivity, reference comparator; every pair/triple '
         'with two different versions is non-trivial. (c) every cfg tree of depth<=2 over atoms {a,b,unix,k="v",k="w"} with '
         'all/any arity 0-3 and not; depth 3 = not(t)/all|any(t)/all|any(t,u) over those (thorough: all, quick: every twelfth by index+seed) '
@@ -109,6 +109,7 @@ OPS8 = ['', '^', '~', '=', '<', '<=', '>', '>=']
 REQ_TAGS = ['-alpha', '-alpha.1', '-rc.2', '-0']
 VER_PRE_TAGS = ['-alpha', '-alpha.1', '-rc.2', '-0', '-beta+exp.sha']
 BUILD_TAGS = ['+build.5', '+b-1.x', '+001']
+ORDER_TAGS = ['-2', '-11', '-a.1b', '-1b', '-a.2']       # numeric-first / digit-leading alphanumeric identifiers (thorough Cargo cross-validation)
 
 
 def partial_versions(hi: int = 4) -> T.List[str]:
@@ -177,26 +178,11 @@ def req_sig(cargo_parse: T.Any, comps: T.Sequence[T.Tuple[str, str]], v: str, go
     return f'req/release:list:{"accepts" if got else "rejects"}'
 
 
-def known_req_cell(rcomps: T.Sequence[R.Comp], ver: R.Ver) -> T.Optional[str]:
-    """cells belonging to a confirmed defect class (excluded from the campaign, each has a dedicated probe)"""
-    if ver.pre:
-        if not rcomps:
-            return 'G2 `*` x pre-release version'
-        return None
-    for c in rcomps:
-        if c.op == '<=' and c.pre and (c.major, c.minor, c.patch) == ver.release:
-            return 'G1 `<=X.Y.Z-pre` x release X.Y.Z'
-    return None
-
-
-def check_req_cell(cargo_parse: T.Any, comps: T.Sequence[T.Tuple[str, str]], variant: int, v: str,
-                   honour_known: bool = True) -> T.Tuple[T.Optional[Failure], str]:
+def check_req_cell(cargo_parse: T.Any, comps: T.Sequence[T.Tuple[str, str]], variant: int, v: str) -> T.Tuple[T.Optional[Failure], str]:
     """-> (failure, class). Used by the probes, by replay and (inlined for speed) mirrored by the shard loop."""
     req = render_req(comps, variant)
     rc = R.parse_req(req)
     ver = R.parse_version(v)
-    if honour_known and known_req_cell(rc, ver):
-        return None, 'excluded'
     case = {'kind': 'req', 'comps': [list(c) for c in comps], 'variant': variant, 'req': req, 'version': v}
     try:
         got = cargo_parse(req)(v)
@@ -218,11 +204,11 @@ def check_req_cell(cargo_parse: T.Any, comps: T.Sequence[T.Tuple[str, str]], var
     if got != want:
         sig = req_sig(cargo_parse, comps, v, got)
         if variant != 0:
-            f0, _ = check_req_cell(cargo_parse, comps, 0, v, honour_known)
+            f0, _ = check_req_cell(cargo_parse, comps, 0, v)
             if f0 is None:
                 sig = f'req/blank-spelling:{variant}'
         if '+' in v:       # prefer the same cell without build metadata when it fails the same way
-            f1, _ = check_req_cell(cargo_parse, comps, variant, v.split('+')[0], honour_known)
+            f1, _ = check_req_cell(cargo_parse, comps, variant, v.split('+')[0])
             if f1 is not None and f1.sig == sig:
                 return f1, 'release'
         return Failure(sig, case, f'cargo_parse({req!r})({v!r}) = {got}; Cargo rule with the two pinned deviations says {want} '
@@ -258,7 +244,7 @@ def _req_shard(shard: T.Tuple[T.List[T.List[T.Tuple[str, str]]], int, int, int, 
     pre = [v + t for v in rel for t in VER_PRE_TAGS]
     prev = [R.parse_version(v) for v in pre]
     sigs: T.Set[str] = set()
-    n_rel = n_pre = n_pre_unclaimed = nt = n_excl_g1 = n_excl_g2 = info_diff = 0
+    n_rel = n_pre = n_pre_unclaimed = nt = n_g1 = n_g2 = info_diff = 0
     sample_budget = 3
 
     def add(f: T.Optional[Failure]) -> None:
@@ -297,8 +283,7 @@ def _req_shard(shard: T.Tuple[T.List[T.List[T.Tuple[str, str]]], int, int, int, 
                     continue
                 key = relv[j].release
                 if key in g1:
-                    n_excl_g1 += 1
-                    continue
+                    n_g1 += 1          # `<=X.Y.Z-pre` against the release X.Y.Z (class of the repaired defect 7dc1489): judged like any cell
                 vs = v if (j + k) % 2 == 0 else rel_build[j]
                 n_rel += 1
                 if k == 0:
@@ -324,13 +309,13 @@ def _req_shard(shard: T.Tuple[T.List[T.List[T.Tuple[str, str]]], int, int, int, 
                         add(check_req_cell(cargo_parse, comps, k, pre[j])[0])
                     elif got != R.match_comps(rc, prev[j]):
                         info_diff += 1
-            elif not rc:
-                n_excl_g2 += len(pre)
             else:
                 for j, v in enumerate(pre):
                     if stride > 1 and (i + j + seed + k) % stride:
                         continue
                     n_pre += 1
+                    if not rc:
+                        n_g2 += 1      # `*` against a pre-release (class of the repaired defect 019bb67): the gate applies
                     if k == 0 and table[prev[j].release]:
                         nt += 1
                     try:
@@ -349,10 +334,8 @@ def _req_shard(shard: T.Tuple[T.List[T.List[T.Tuple[str, str]]], int, int, int, 
     ev.event(label + '/release_cells', n_rel)
     ev.event(label + '/prerelease_gate_cells', n_pre)
     ev.event(label + '/prerelease_cells_no_claim', n_pre_unclaimed)
-    if n_excl_g1:
-        ev.exclude('known G1: `<=X.Y.Z-pre` against release X.Y.Z (dedicated probe instead)', n_excl_g1)
-    if n_excl_g2:
-        ev.exclude('known G2: `*` against a pre-release version (dedicated probe instead)', n_excl_g2)
+    ev.event(label + '/release_cells_le_prerelease_bound_vs_its_release', n_g1)
+    ev.event(label + '/prerelease_gate_cells_star', n_g2)
     ev.extra['info_prerelease_cells_where_answer_differs_from_full_cargo_rule_not_claimed'] = info_diff
 
 
@@ -370,10 +353,13 @@ SEMVER_SET = [
     '1.0.0-a.100000000000000000000', '1.0.1-alpha', '1.0.1', '1.0.10', '1.0.9', '1.1.0-alpha', '1.1.0', '1.2.3', '1.2.10', '1.9.0',
     '1.10.0', '2.0.0-alpha', '2.0.0-rc.2', '2.0.0-rc.10', '2.0.0-rc.2.0', '2.0.0-rc.2.a', '2.0.0', '2.0.0+z', '9.0.0', '10.0.0',
     '10.0.0-alpha', '99999999999999999999.0.0', '1.0.0-alpha.1+build', '1.0.0-alpha.1.0',
+    # first identifier numeric (11.4.1 / 11.4.3), later identifier alphanumeric with a leading digit (11.4.2 / 11.4.3)
+    '1.0.0-0', '1.0.0-2', '1.0.0-11', '1.0.0-2.a', '1.0.0-2.0', '1.0.0-1b', '1.0.0-a.2', '1.0.0-a.1b', '1.0.0-a.1b.2', '1.0.0-a.01b', '1.0.0-a.1-', '2.0.0-11+b',
 ]
 
 
-def known_semver_class(v: R.Ver) -> T.Optional[str]:
+def ident_shape_class(v: R.Ver) -> T.Optional[str]:
+    """signature refinement only (the shapes of the two repaired tokenizer defects a1feef8); nothing is excluded"""
     if v.pre and R._is_num(v.pre[0]):
         return 'numeric-first-prerelease-ident'
     if any(p[0] in R.DIGITS and not R._is_num(p) for p in v.pre[1:]):
@@ -382,16 +368,13 @@ def known_semver_class(v: R.Ver) -> T.Optional[str]:
 
 
 def pair_class(a: R.Ver, b: R.Ver) -> str:
-    for v in (a, b):
-        k = known_semver_class(v)
-        if k:
-            return k
     if a.release != b.release:
         return 'core'
     if bool(a.pre) != bool(b.pre):
         return 'prerelease-vs-release'
     if a.pre != b.pre:
-        return 'prerelease-idents'
+        # the order is decided by the identifiers: name the identifier shape when it is one of the two delicate ones
+        return ident_shape_class(a) or ident_shape_class(b) or 'prerelease-idents'
     return 'build-metadata' if a.build != b.build else 'identical'
 
 
@@ -482,8 +465,10 @@ def _semver_shard(shard: T.Tuple[int, int], ev: Evidence, fails: T.List[Failure]
         ev.case({'a': S[0], 'b': S[20], 'c': S[40]}, cls='semver_triple', n=0)
 
 
-IDENT_POOL_FIRST = ['alpha', 'beta', 'rc', 'a', 'b', 'A', 'Z', 'z', 'x-y', '-', '-1', 'a1', 'rc1', 'rc-1', '1a', '0a', 'alpha-']
-IDENT_POOL_REST = ['0', '1', '2', '9', '10', '11', '99', '100', '18446744073709551616'] + [p for p in IDENT_POOL_FIRST if p[0] not in R.DIGITS]
+IDENT_POOL_NUM = ['0', '1', '2', '9', '10', '11', '99', '100', '18446744073709551616']
+IDENT_POOL_ALNUM = ['alpha', 'beta', 'rc', 'a', 'b', 'A', 'Z', 'z', 'x-y', '-', '-1', 'a1', 'rc1', 'rc-1', '1a', '0a', 'alpha-', '1b', '01b', '2-', '11a']
+IDENT_POOL_FIRST = IDENT_POOL_ALNUM + IDENT_POOL_NUM[:6]
+IDENT_POOL_REST = IDENT_POOL_NUM + IDENT_POOL_ALNUM
 
 
 def _semver_text_shard(shard: T.Tuple[int, int], ev: Evidence, fails: T.List[Failure]) -> None:
@@ -510,7 +495,6 @@ def _semver_text_shard(shard: T.Tuple[int, int], ev: Evidence, fails: T.List[Fai
         return check_semver_pair(SemVer, a, b)
 
     campaign(strat, check, n, seed, fails)
-    ev.exclude('known G3/G4: first pre-release identifier numeric / later identifier digit-leading alphanumeric (never generated; dedicated probes)', 0)
 
 
 def _same_core(a: str, b: str) -> str:
@@ -759,8 +743,8 @@ def _cfg_shard(shard: T.Tuple[str, int, int, int, int], ev: Evidence, fails: T.L
     ev.event('cfg/tab_newline_rejected_with_MesonException', n_weak_mesonexc)
 
 
-WEAK_VALUES = ['a b', 'v,w', '(v)', 'a=b', 'v ', 'a  b', ')', ',', '=', 'all x', 'v\tw', 'not(v)', 'v, w', 'x)']
-LEADING_BLANK_VALUES = [' v', '  v', '\tv', ' ', ' v w']     # known G8: excluded from the campaign, dedicated probe
+WEAK_VALUES = ['a b', 'v,w', '(v)', 'a=b', 'v ', 'a  b', ')', ',', '=', 'all x', 'v\tw', 'not(v)', 'v, w', 'x)',
+               ' v', '  v', '\tv', ' ', ' v w']     # the last five: leading blank (class of the repaired defect G8 / ab0f403)
 
 
 def _cfg_value_shard(shard: int, ev: Evidence, fails: T.List[Failure]) -> None:
@@ -794,7 +778,7 @@ def _cfg_value_shard(shard: int, ev: Evidence, fails: T.List[Failure]) -> None:
     ev.evaluations += n
     ev.event('cfg/value_with_blank_or_delimiter', n)
     ev.event('cfg/value_with_blank_or_delimiter_rejected_with_MesonException', rejected)
-    ev.exclude('known G8: string value with leading blank (dedicated probe instead)', len(LEADING_BLANK_VALUES))
+    ev.event('cfg/value_with_leading_blank', sum(1 for v in WEAK_VALUES if v[:1].isspace()) * (n // len(WEAK_VALUES)))
 
 
 # ---------------------------------------------------------------------------
@@ -815,8 +799,9 @@ def join_tokens(seq: T.Sequence[str]) -> str:
     return text
 
 
-def known_text_class(text: str) -> T.Optional[str]:
-    """confirmed defect classes of the lexer (excluded from the campaign; dedicated probes keep checking them)"""
+def lexer_class(text: str) -> T.Optional[str]:
+    """signature refinement only: the three lexer shapes of the repaired defects G5-G7 (ab0f403).  Nothing is excluded;
+    whether a text must be rejected is decided by R.cfg_classify alone."""
     if text.count('"') % 2:
         return 'unterminated-quote'
     if '"' in text:
@@ -828,11 +813,8 @@ def known_text_class(text: str) -> T.Optional[str]:
     return None
 
 
-def check_cfg_text(eval_cfg: T.Any, MesonException: T.Any, text: str, cfgs: T.Dict[str, str], honour_known: bool = True) -> T.Tuple[T.Optional[Failure], str]:
+def check_cfg_text(eval_cfg: T.Any, MesonException: T.Any, text: str, cfgs: T.Dict[str, str]) -> T.Tuple[T.Optional[Failure], str]:
     cls = R.cfg_classify(text)
-    known = known_text_class(text)
-    if honour_known and known is not None:
-        return None, 'excluded:' + known
     case = {'kind': 'cfg_text', 'text': text, 'cfgs': cfgs}
     raw = 'cfg(' + text + ')'
     try:
@@ -842,7 +824,7 @@ def check_cfg_text(eval_cfg: T.Any, MesonException: T.Any, text: str, cfgs: T.Di
     except Exception as e:
         return Failure(f'cfg/raises:{type(e).__name__}', case, f'eval_cfg({raw!r}, {cfgs}) raised {e!r} (only MesonException is allowed)'), cls
     if cls == 'malformed':
-        return Failure(f'cfg/malformed-accepted:{known or "structure"}', case,
+        return Failure(f'cfg/malformed-accepted:{lexer_class(text) or "structure"}', case,
                        f'eval_cfg({raw!r}, {cfgs}) = {got!r}; the text is not a cfg expression (Cargo refuses it) and must be rejected with a '
                        'MesonException rather than evaluated'), cls
     if got is not True and got is not False:
@@ -881,8 +863,9 @@ def _malformed_enum_shard(shard: T.Tuple[T.Tuple[str, ...], int], ev: Evidence, 
             text = ''.join(seq)
             f, cls = check_cfg_text(eval_cfg, MesonException, text, PROBE_CFGS)
             hist[cls] = hist.get(cls, 0) + 1
-            if cls.startswith('excluded:'):
-                continue
+            lc = lexer_class(text)
+            if lc:
+                hist['lexer-shape:' + lc + ':' + cls] = hist.get('lexer-shape:' + lc + ':' + cls, 0) + 1
             n += 1
             if cls.startswith('malformed'):
                 nmal += 1
@@ -892,10 +875,7 @@ def _malformed_enum_shard(shard: T.Tuple[T.Tuple[str, ...], int], ev: Evidence, 
     ev.evaluations += n
     ev.add_distinct(nmal)
     for k, v in hist.items():
-        if k.startswith('excluded:'):
-            ev.exclude('known lexer defect class (' + k[9:] + '), dedicated probe instead', v)
-        else:
-            ev.event('cfg/token_string/' + k, v)
+        ev.event('cfg/token_string/' + k, v)
     if prefix == ('all',):
         ev.case({'text': 'cfg(all(a b))', 'class': R.cfg_classify('all(a b)')}, cls='cfg_malformed_token_string', n=0)
         ev.case({'text': 'cfg(not(a,b))', 'class': R.cfg_classify('not(a,b)')}, cls='cfg_malformed_token_string', n=0)
@@ -952,8 +932,9 @@ def _mutation_shard(shard: T.Tuple[int, int, int], ev: Evidence, fails: T.List[F
             seen.add(text)
             f, cls = check_cfg_text(eval_cfg, MesonException, text, PROBE_CFGS)
             hist[cls] = hist.get(cls, 0) + 1
-            if cls.startswith('excluded:'):
-                continue
+            lc = lexer_class(text)
+            if lc:
+                hist['lexer-shape:' + lc + ':' + cls] = hist.get('lexer-shape:' + lc + ':' + cls, 0) + 1
             n += 1
             if cls.startswith('malformed'):
                 nmal += 1
@@ -963,10 +944,7 @@ def _mutation_shard(shard: T.Tuple[int, int, int], ev: Evidence, fails: T.List[F
     ev.evaluations += n          # not added to distinct_nontrivial: different shards may produce the same mutated text
     ev.event('cfg/mutated_tree_malformed', nmal)
     for k, v in hist.items():
-        if k.startswith('excluded:'):
-            ev.exclude('known lexer defect class (' + k[9:] + '), dedicated probe instead', v)
-        else:
-            ev.event('cfg/mutated_tree/' + k, v)
+        ev.event('cfg/mutated_tree/' + k, v)
     if lo == 0 and muts:
         ev.case({'base': join_tokens(toks), 'mutated': join_tokens(muts[0])}, cls='cfg_token_mutation', n=0)
 
@@ -994,9 +972,9 @@ def _text_shard(shard: T.Tuple[int, int], ev: Evidence, fails: T.List[Failure]) 
             ev.exclude('nesting deeper than 12')
             return None
         f, cls = check_cfg_text(eval_cfg, MesonException, text, PROBE_CFGS)
-        if cls.startswith('excluded:'):
-            ev.exclude('known lexer defect class (' + cls[9:] + '), dedicated probe instead')
-            return None
+        lc = lexer_class(text)
+        if lc:
+            ev.event('cfg_text/lexer-shape:' + lc + ':' + cls)
         ev.case(text, nontrivial=cls.startswith('malformed') and len(text) > 1, cls='cfg_text/' + cls)
         return f
 
@@ -1009,7 +987,9 @@ def _splice(text: str, pos: int, cut: int, frag: str) -> str:
 
 
 # ---------------------------------------------------------------------------
-# dedicated probes for the confirmed defects (one per signature; they keep failing until the code is fixed)
+# regression probes: the minimal inputs of the eight defects G1..G8 that were found on the pinned tree and repaired by the
+# `fix:` commits 7dc1489, 019bb67, a1feef8, ab0f403.  Their classes are no longer excluded anywhere: the campaigns enumerate /
+# generate them and judge them with the ordinary oracle; these eight cases (and replays/regress/C20-*.json) stay as fixed points.
 
 def known_defect_probes() -> T.List[T.Dict[str, T.Any]]:
     return [
@@ -1031,7 +1011,7 @@ def run_case(case: T.Dict[str, T.Any]) -> T.Optional[Failure]:
     kind = case.get('kind')
     if kind == 'req':
         comps = [tuple(c) for c in case['comps']]
-        return check_req_cell(cargo_parse, comps, case.get('variant', 0), case['version'], honour_known=False)[0]
+        return check_req_cell(cargo_parse, comps, case.get('variant', 0), case['version'])[0]
     if kind == 'semver_pair':
         return check_semver_pair(SemVer, case['a'], case['b'])
     if kind == 'semver_triple':
@@ -1040,7 +1020,7 @@ def run_case(case: T.Dict[str, T.Any]) -> T.Optional[Failure]:
         return check_cfg_tree(eval_cfg, MesonException, case['tree'], case['cfgs'], case.get('style', 0), shrink=False,
                               weak_value=case.get('weak_value', False))
     if kind == 'cfg_text':
-        return check_cfg_text(eval_cfg, MesonException, case['text'], case['cfgs'], honour_known=False)[0]
+        return check_cfg_text(eval_cfg, MesonException, case['text'], case['cfgs'])[0]
     raise HarnessError(f'unknown case kind {kind!r}')
 
 
@@ -1082,13 +1062,19 @@ CARGO_REQ_CELLS: T.List[T.Tuple[str, str]] = [
     ('>1.0.0-alpha', '1.0.0-alpha.1'), ('>1.0.0-alpha.1', '1.0.0-alpha.beta'), ('>1.0.0-beta.2', '1.0.0-beta.11'), ('>1.0.0-beta.11', '1.0.0-beta.2'),
     ('>1.0.0-2', '1.0.0-11'), ('>1.0.0-11', '1.0.0-2'), ('>1.0.0-a.2', '1.0.0-a.1b'), ('>1.0.0-a.1b', '1.0.0-a.2'), ('>1.0.0-alpha.A', '1.0.0-alpha.a'),
     ('>1.0.0-alpha.a', '1.0.0-alpha.A'), ('>1.0.0-rc-1', '1.0.0-rc.x'), ('>1.0.0-rc.x', '1.0.0-rc-1'), ('>1.0.0--', '1.0.0-9'), ('>1.0.0-1a', '1.0.0-2'),
+    # the classes that were excluded until the fixes 7dc1489 / 019bb67 / a1feef8 (G1-G4)
+    ('<=1.2.3-rc.2', '1.2.3'), ('<=1.2.3-rc.2', '1.2.3-rc.2'), ('<=1.2.3-rc.2', '1.2.3-rc.10'), ('<=0.0.0-0', '0.0.0'), ('>=1.0.0, <=1.2.3-alpha', '1.2.3'),
+    ('<= 1.2.3-alpha', '1.2.3+b'), ('*', '2.0.0-rc.1'), (' * ', '0.0.0-0'), ('>1.0.0-2', '1.0.0-1b'), ('>1.0.0-1b', '1.0.0-2'), ('>1.0.0-2.a', '1.0.0-2.0'),
+    ('>1.0.0-2.0', '1.0.0-2.a'), ('>1.0.0-a.1b.2', '1.0.0-a.1b.10'), ('>1.0.0-a.01b', '1.0.0-a.1b'), ('>1.0.0-a.1b', '1.0.0-a.01b'), ('>1.0.0-0', '1.0.0-a'),
 ]
 CARGO_INVALID_REQS = ['1.0-alpha', '1, *', '>=\t1', '1.2.3.4', '', '01.2.3', '1.2.3-01', '!=1.2.3']
 CARGO_CFG_CELLS = ['a', 'k = "v"', 'k="v"', 'all()', 'any()', 'not(a)', 'all(a, b)', 'all (a)', ' a ', 'all( a , k = "v" )', 'any(all(a, not(b)), k = "w")',
                    'all(a,)', 'true', 'k = "a b"', 'k = " v"', 'k = ""', 'r#a',
                    '', 'all', 'not', 'all(a b)', 'not(a,b)', 'not()', 'not(a,)', 'all(,)', 'all(,a)', 'all(a,,b)', 'k = v', '= "v"', 'k = = "v"', 'k == "v"', 'a b',
                    'all(a))', 'all(a', 'unix"', 'k = "v', '"a="', '"unix"', 'k = "v" "w"', 'a=', 'all(a)b', '(a)', 'a,', 'a-b', 'a.b', '1a', 'a\tb', 'a\n', 'all(a,\tb)',
-                   'k = "v\\"w"', 'not(all)', 'all(not)']
+                   'k = "v\\"w"', 'not(all)', 'all(not)',
+                   # lexer shapes that were excluded until the fix ab0f403 (G5-G8)
+                   'all(a", b)', 'k = "v""', '"', '"a=b"', '""', 'a" "b', 'k = "(", a', 'all(k = ",", a)', 'any', ' not ', 'all(any)', 'k = "  v"', 'k = " "', 'all(k = " v w", a)']
 
 
 def selftest(ctx: Ctx) -> None:
@@ -1102,10 +1088,9 @@ def selftest(ctx: Ctx) -> None:
             R.cmp_version(R.parse_version('1.0.0-2'), R.parse_version('1.0.0-11')) >= 0 or \
             R.cmp_version(R.parse_version('1.0.0-a.2'), R.parse_version('1.0.0-a.1b')) >= 0:
         raise HarnessError('reference SemVer order wrong (build metadata / numeric identifiers)')
-    for s in SEMVER_SET:
-        v = R.parse_version(s)
-        if known_semver_class(v):
-            raise HarnessError(f'{s} belongs to an excluded class and must not be in SEMVER_SET')
+    shapes = {ident_shape_class(R.parse_version(s)) for s in SEMVER_SET}
+    if not {'numeric-first-prerelease-ident', 'digit-leading-alnum-ident'} <= shapes or len(set(SEMVER_SET)) != len(SEMVER_SET):
+        raise HarnessError(f'SEMVER_SET must hold numeric-first and digit-leading alphanumeric identifiers, without duplicates: {shapes}')
     # 2. matcher against the fixtures pinned in the repo (deviations included)
     for req, acc, rej in PINNED:
         for v, want in [(x, True) for x in acc] + [(x, False) for x in rej]:
@@ -1235,7 +1220,7 @@ def thorough_cargo_validation(ctx: Ctx) -> None:
             ver = rnd.choice(rel)
         r = rnd.random()
         if r < 0.25:
-            ver += rnd.choice(VER_PRE_TAGS)
+            ver += rnd.choice(VER_PRE_TAGS + ORDER_TAGS)
         elif r < 0.35:
             ver += rnd.choice(BUILD_TAGS)
         cells.append((req, ver))
@@ -1259,7 +1244,7 @@ def _ranges(n: int, k: int) -> T.List[T.Tuple[int, int]]:
 
 
 def run(ctx: Ctx) -> None:
-    # confirmed defects first: one deterministic probe per signature
+    # regression probes first: one deterministic case per repaired defect
     for case in known_defect_probes():
         ctx.fail(run_case(case))
         ctx.ev.event('known_defect_probes')
